@@ -118,7 +118,7 @@ theorem vc_up {D : Nat} {e : Int16} (x : Gen.decomposed192) (mb : Nat) (c : UInt
 /-- truncated divisor: `b` low digits dropped, flag raised if one of them was non-zero -/
 def TrO (O : Nat) (t0 : Int8) (e0 : Int16) (x : Gen.decomposed192 × Int8) : Prop :=
   ∃ b : Nat, x.1.sig.toNat = O / 10 ^ b ∧ x.1.exp = e0 + Int16.ofNat b ∧
-    x.2 = (if O % 10 ^ b = 0 then t0 else 1) ∧ (b = 0 ∨ 2 ^ 185 ≤ x.1.sig.toNat)
+    x.2 = (if O % 10 ^ b = 0 then t0 else 1) ∧ (b = 0 ∨ (2 ^ 185 ≤ x.1.sig.toNat ∧ OLIM ≤ O))
 
 theorem TrO.refl (o : Gen.decomposed192) (t : Int8) : TrO o.sig.toNat t o.exp (o, t) :=
   ⟨0, by simp, by simp, by simp [Nat.mod_one], Or.inl rfl⟩
@@ -142,7 +142,10 @@ theorem TrO.step {O : Nat} {t0 : Int8} {e0 : Int16} {x : Gen.decomposed192 × In
     have := x.1.sig.w0.toNat_lt; have := x.1.sig.w1.toNat_lt
     simp only [U192.toNat, UInt64.reduceToNat] at hg ⊢
     omega
-  refine ⟨by omega, b + 1, ?_, ?_, ?_, Or.inr ?_⟩
+  have hOge : OLIM ≤ O := by
+    have : x.1.sig.toNat ≤ O := by rw [h1]; exact Nat.div_le_self _ _
+    unfold OLIM lim; omega
+  refine ⟨by omega, b + 1, ?_, ?_, ?_, Or.inr ⟨?_, hOge⟩⟩
   · show q.toNat = _
     rw [hdiv.1, h1, Nat.div_div_eq_div_mul, Nat.pow_succ]
   · show x.1.exp + 1 = _
@@ -372,14 +375,14 @@ def QFin (Dn On : Nat) (e0 : Int16) (t1 : Int8) (r : Gen.decomposed192) (t' : In
   ∃ c tt : Nat, tt ≤ 1 ∧ r.sig.toNat = Dn * 10 ^ c / On / 10 ^ tt ∧
     r.exp = e0 - Int16.ofNat c + Int16.ofNat tt ∧
     t' = (if Dn * 10 ^ c % (On * 10 ^ tt) = 0 then t1 else 1) ∧
-    (Dn * 10 ^ c % On = 0 ∨ LIM ≤ r.sig.toNat) ∧ 1 ≤ r.sig.toNat
+    (Dn * 10 ^ c % On = 0 ∨ LIM ≤ r.sig.toNat) ∧ (tt = 1 → LIM ≤ r.sig.toNat) ∧ 1 ≤ r.sig.toNat
 
 theorem QFin.of_QSt {Dn On : Nat} {e0 : Int16} {t1 : Int8} {st : Int8 × U192 × U192 × Int16}
     (hOn : 0 < On) (h : QSt Dn On e0 t1 st) (hx : st.2.2.1.toNat = 0 ∨ LIM ≤ st.2.1.toNat) :
     QFin Dn On e0 t1 ⟨st.2.1, st.2.2.2⟩
       (if (st.2.2.1.w0 ||| st.2.2.1.w1 ||| st.2.2.1.w2 != 0) = true then 1 else st.1) := by
   obtain ⟨c, tt, htt, hs, hr, he, ht, hL, h1⟩ := h
-  refine ⟨c, tt, htt, hs, he, ?_, ?_, h1⟩
+  refine ⟨c, tt, htt, hs, he, ?_, ?_, hL, h1⟩
   · have hz : (st.2.2.1.w0 ||| st.2.2.1.w1 ||| st.2.2.1.w2 != 0) = true ↔ st.2.2.1.toNat ≠ 0 := by
       have := st.2.2.1.w0.toNat_lt; have := st.2.2.1.w1.toNat_lt
       rw [bne_iff_ne, ne_eq, UInt64.or_eq_zero_iff, UInt64.or_eq_zero_iff,
